@@ -182,13 +182,13 @@ Definition wt_res (n : node) (r : sres) : Prop :=
 Definition rec_wt (rec : node -> bool -> val -> sres) (ch : node) : Prop :=
   wfn ch = true -> lnok ch = true -> forall pm f, wtb ch f = true -> wt_res ch (rec ch pm f).
 
-Lemma wt_struct rec tn tu nm pk pki p chld mk mv sl hb hc self pmap depth path fs :
+Lemma wt_struct lg rec tn tu nm pk pki p chld mk mv sl hb hc self pmap depth path fs :
   wfn (Node typeStruct tn tu nm pk pki false chld mk mv sl hb hc) = true ->
   lnok (Node typeStruct tn tu nm pk pki false chld mk mv sl hb hc) = true ->
   wtb (Node typeStruct tn tu nm pk pki false chld mk mv sl hb hc) (VStruct fs) = true ->
   Forall (rec_wt rec) chld ->
   wt_res (Node typeStruct tn tu nm pk pki false chld mk mv sl hb hc)
-         (set_body rec s buf typeStruct tn p chld mk mv sl self pmap depth path (VStruct fs)).
+         (set_body lg rec s buf typeStruct tn p chld mk mv sl self pmap depth path (VStruct fs)).
 Proof.
   intros W LN WT HC. cbn [set_body].
   destruct (nth_error path depth) as [seg|]; [|exact WT].
@@ -208,15 +208,15 @@ Proof.
   - destruct (n_ptr ch && is_nil_val f); cbn [wt_res]; [exact WT|].
     cbn [wtb]. eapply forallb2_upd; eauto. apply leaf_store_wt; auto.
   - assert (NLF : is_leaf_node ch = false) by exact LF.
-    pose proof (Forall_nth _ _ _ _ HC NT Wch Lch false (nil_chk ch f) (wtb_nil_chk ch f Wch NLF WTf)) as G.
-    destruct (rec ch false (nil_chk ch f)) as [f2|f2 wb e|k]; cbn [wt_res] in *; auto;
+    pose proof (Forall_nth _ _ _ _ HC NT Wch Lch (pmap && negb lg) (nil_chk ch f) (wtb_nil_chk ch f Wch NLF WTf)) as G.
+    destruct (rec ch (pmap && negb lg) (nil_chk ch f)) as [f2|f2 wb e|k]; cbn [wt_res] in *; auto;
       cbn [wtb]; eapply forallb2_upd; eauto.
 Qed.
 
-Lemma wt_slice rec tn tu nm pk pki p chld mk mv en hb hc self pmap depth path nl es ex :
+Lemma wt_slice lg rec tn tu nm pk pki p chld mk mv en hb hc self pmap depth path nl es ex :
   String.eqb tn "[]byte" = false -> wfn en = true -> lnok en = true -> forallb (wtb en) es = true -> rec_wt rec en ->
   wt_res (Node typeSlice tn tu nm pk pki false chld mk mv (Some en) hb hc)
-         (set_body rec s buf typeSlice tn p chld mk mv (Some en) self pmap depth path (VSlice nl es ex)).
+         (set_body lg rec s buf typeSlice tn p chld mk mv (Some en) self pmap depth path (VSlice nl es ex)).
 Proof.
   intros BY We Le WT HR. cbn [set_body]. rewrite BY.
   assert (UPD : forall b l, forallb (wtb en) l = true ->
@@ -227,19 +227,19 @@ Proof.
   destruct ((0 <=? i)%Z && (i <? Z.of_nat (List.length es))%Z); [|apply UPD; exact WT].
   destruct (nth_error es (Z.to_nat i)) as [e0|] eqn:NE; [|exact I].
   assert (WTe : wtb en e0 = true) by (rewrite forallb_forall in WT; apply WT; eapply nth_error_In; eauto).
-  pose proof (HR We Le false e0 WTe) as G.
-  destruct (rec en false e0) as [e2|e2 wb e|k]; cbn [wt_res] in *; auto.
+  pose proof (HR We Le (pmap && negb lg) e0 WTe) as G.
+  destruct (rec en (pmap && negb lg) e0) as [e2|e2 wb e|k]; cbn [wt_res] in *; auto.
   - apply UPD. apply forallb_upd; auto.
   - destruct (is_builtin (n_typn en) && negb (n_ptr en)); apply UPD; [exact WT|apply forallb_upd; auto].
 Qed.
 
-Lemma wt_map rec tn tu nm pk pki p chld kn vn sl hb hc self pmap depth path nl kvs :
+Lemma wt_map lg rec tn tu nm pk pki p chld kn vn sl hb hc self pmap depth path nl kvs :
   wfn (Node typeMap tn tu nm pk pki false chld (Some kn) (Some vn) sl hb hc) = true ->
   lnok vn = true ->
   wtb (Node typeMap tn tu nm pk pki false chld (Some kn) (Some vn) sl hb hc) (VMap nl kvs) = true ->
   rec_wt rec vn ->
   wt_res (Node typeMap tn tu nm pk pki false chld (Some kn) (Some vn) sl hb hc)
-         (set_body rec s buf typeMap tn p chld (Some kn) (Some vn) sl self pmap depth path (VMap nl kvs)).
+         (set_body lg rec s buf typeMap tn p chld (Some kn) (Some vn) sl self pmap depth path (VMap nl kvs)).
 Proof.
   intros W Lv WT HR. cbn [set_body].
   cbn [wfn] in W. apply andb_true_iff in W. destruct W as (_ & W).
@@ -269,12 +269,13 @@ Proof.
     unfold alloc in A. apply andb_true_iff in A. destruct A as (A & _). apply andb_true_iff in A. destruct A as (A & _).
     unfold is_leaf_node. destruct (n_typ vn); try discriminate. reflexivity. }
   destruct (alloc && nl0); [exact I|].
-  pose proof (HR Wv Lv true e1 WT1) as G.
+  set (wv := (match n_typ vn with typeStruct => true | _ => false end) && negb (n_ptr vn)).
+  pose proof (HR Wv Lv wv e1 WT1) as G.
   assert (ST : forall e2 e, wtb vn e2 = true ->
             wt_res (Node typeMap tn tu nm pk pki false chld (Some kn) (Some vn) sl hb hc)
                    (if nl0 then SPanic PNilMap else SRet (VMap false (map_put kn kvs k e2)) false e)).
   { intros e2 e H. destruct nl0; [exact I|]. cbn [wt_res]. apply UPD. apply map_put_wt; auto. }
-  destruct (rec vn true e1) as [e2|e2 wb e|pk']; cbn [wt_res] in G; auto.
+  destruct (rec vn wv e1) as [e2|e2 wb e|pk']; cbn [wt_res] in G; auto.
   destruct wb; [apply ST; exact G|].
   destruct (if alloc then Some e1 else found) as [old|] eqn:OLD; cbn [wt_res]; apply UPD; [|exact WT'].
   apply map_put_wt; auto. apply keep_shared_wt; auto.
@@ -282,8 +283,8 @@ Proof.
 Qed.
 
 (* the main lemma: all nodes, by induction *)
-Lemma set_node_wt : forall n, wfn n = true -> lnok n = true ->
-  forall pmap v depth path, wtb n v = true -> wt_res n (set_node s buf n pmap v depth path).
+Lemma set_node_wt lg : forall n, wfn n = true -> lnok n = true ->
+  forall pmap v depth path, wtb n v = true -> wt_res n (set_node lg s buf n pmap v depth path).
 Proof.
   intros n. induction n using node_ind'. intros W LN pmap v depth path WT.
   cbn [set_node].
@@ -293,7 +294,7 @@ Proof.
   assert (W0 : wfn n0 = true) by exact W.
   assert (L0 : lnok n0 = true) by exact LN.
   assert (BODY : forall x, wtb n0 x = true ->
-            wt_res n0 (set_body (fun ch pm f => set_node s buf ch pm f (S depth) path) s buf ty tn p chld mk mv sl self pmap depth path x)).
+            wt_res n0 (set_body lg (fun ch pm f => set_node lg s buf ch pm f (S depth) path) s buf ty tn p chld mk mv sl self pmap depth path x)).
   { intros x WX. unfold n0 in *. destruct ty.
     - (* struct *)
       assert (WX' := WX). cbn [wtb] in WX'. destruct x as [b|z|f0|s0|nb d e|fs|ns es ex|nmm kvs|o]; try discriminate.
@@ -312,7 +313,7 @@ Proof.
         destruct sl as [en|]; [|discriminate]. cbn [orb] in WW.
         assert (WX' := WX). cbn [wtb] in WX'. rewrite BY in WX'.
         destruct x as [b|z|f0|s0|nb d e|fs|ns es ex|nmm kvs|o]; try discriminate.
-        pose proof (wt_slice (fun ch pm f => set_node s buf ch pm f (S depth) path) tn tu nm pk pki p chld mk mv en hb hc self pmap depth path ns es ex BY WW) as R.
+        pose proof (wt_slice lg (fun ch pm f => set_node lg s buf ch pm f (S depth) path) tn tu nm pk pki p chld mk mv en hb hc self pmap depth path ns es ex BY WW) as R.
         cbn [set_body] in R. rewrite BY in R. apply R; auto.
         intros Wc Lc pm f WTf. apply (H2 en eq_refl); auto.
     - (* basic *)
@@ -320,7 +321,7 @@ Proof.
   destruct p.
   - cbn [wtb] in WT. destruct v as [b|z|f0|s0|nb d e|fs|ns es ex|nmm kvs|[x|]]; try discriminate.
     + specialize (BODY x WT). fold self.
-      destruct (set_body _ s buf ty tn true chld mk mv sl self pmap depth path x) as [x'|x' wb e|k];
+      destruct (set_body lg _ s buf ty tn true chld mk mv sl self pmap depth path x) as [x'|x' wb e|k];
         cbn [wrap_ptr wt_res] in *; auto.
     + reflexivity.
   - exact (BODY v WT).
@@ -333,9 +334,9 @@ Theorem set_method_wt s buf n v path v' e :
   wfn n = true -> lnok n = true -> wtb n v = true ->
   set_method n v path s buf = Ret v' e -> wtb n v' = true.
 Proof.
-  intros W LN WT R. unfold set_method in R. destruct path as [|seg rest]; [inversion R; subst; exact WT|].
-  pose proof (set_node_wt s buf n W LN false v 0 (seg :: rest) WT) as G.
-  destruct (set_node s buf n false v 0 (seg :: rest)) as [x|x wb e'|k]; cbn [wt_res] in G; inversion R; subst; exact G.
+  intros W LN WT R. unfold set_method, set_method_of in R. destruct path as [|seg rest]; [inversion R; subst; exact WT|].
+  pose proof (set_node_wt s buf false n W LN false v 0 (seg :: rest) WT) as G.
+  destruct (set_node false s buf n false v 0 (seg :: rest)) as [x|x wb e'|k]; cbn [wt_res] in G; inversion R; subst; exact G.
 Qed.
 
 (* ---------- histories ---------- *)
